@@ -131,4 +131,4 @@ class IAccountant(abc.ABC):
                 f"state_dict of {state_dict['mechanism']} cannot be loaded into "
                 f" Privacy Accountant with mechanism {self.__class__.mechanism}"
             )
-        self.history = state_dict["history"]
+        self.history = deepcopy(state_dict["history"])
